@@ -598,12 +598,26 @@ class _Inf:
         return "-inf" if self.neg else "inf"
 
 
-def _float_proxy(x=0.0):
-    if isinstance(x, str) and x.strip().lower() in ("inf", "+inf", "infinity", "+infinity"):
-        return _Inf(False)
-    if isinstance(x, str) and x.strip().lower() in ("-inf", "-infinity"):
-        return _Inf(True)
-    return float(x)
+class _FloatMeta(type):
+    """`float` as the type checker sees it in symbolic runs: calling it on an infinity literal gives the exact _Inf object,
+    and isinstance(x, float) -- how the checker tells an infinite bound from an exact one -- holds for _Inf and real floats"""
+
+    def __call__(cls, x=0.0):
+        if isinstance(x, str) and x.strip().lower() in ("inf", "+inf", "infinity", "+infinity"):
+            return _Inf(False)
+        if isinstance(x, str) and x.strip().lower() in ("-inf", "-infinity"):
+            return _Inf(True)
+        return float(x)
+
+    def __instancecheck__(cls, obj):
+        return isinstance(obj, (_Inf, float))
+
+    def __subclasscheck__(cls, sub):
+        return issubclass(sub, (_Inf, float))
+
+
+class _float_proxy(metaclass=_FloatMeta):
+    pass
 
 
 def _install_shims():
